@@ -10,6 +10,7 @@ import (
 	"reflect"
 	"testing"
 
+	mocker "github.com/tencent/goom"
 	"github.com/tencent/goom/arg"
 	"github.com/tencent/goom/zverif/vkit"
 	"pgregory.net/rapid"
@@ -270,6 +271,57 @@ func runPair(ci interface{}, s *vkit.Stats) error {
 	}
 	if len(alts) > 1 {
 		s.Class("in-with->=2-alternatives")
+	}
+	// the same membership question asked the way users ask it: When.In(candidates...) of a one-parameter function
+	whenIn := func(cands []interface{}, probe reflect.Value) (hit bool, err error) {
+		defer func() {
+			if r := recover(); r != nil {
+				err = fmt.Errorf("panic: %v", r)
+			}
+		}()
+		w := mocker.NewWhen(reflect.FuncOf([]reflect.Type{t}, []reflect.Type{reflect.TypeOf(0)}, false))
+		w.Return(0)
+		w.In(cands...).Return(1)
+		out := w.Eval(pattern(probe, false))
+		return len(out) == 1 && out[0] == 1, nil
+	}
+	if t.Kind() != reflect.Func {
+		wi, err := whenIn(pats, y)
+		if err != nil {
+			return fmt.Errorf("When.In(...).Eval(y): %v; %s", err, desc())
+		}
+		if wi != union {
+			return fmt.Errorf("When.In(%d candidates) selects its result for y: %v, but the union of Equals(xi).Eval(y) is %v; %s", len(alts), wi, union, desc())
+		}
+		s.Class("when-in")
+		// candidates that differ although they print alike: nil and empty, and y itself after everything else
+		extra := append(append([]interface{}{}, pats...), pattern(y, c.NilPat))
+		if t.Kind() == reflect.Slice || t.Kind() == reflect.Map {
+			empty := reflect.MakeSlice(reflect.SliceOf(reflect.TypeOf(0)), 0, 0)
+			if t.Kind() == reflect.Slice {
+				empty = reflect.MakeSlice(t, 0, 0)
+			} else {
+				empty = reflect.MakeMap(t)
+			}
+			for _, cands := range [][]interface{}{{reflect.Zero(t).Interface(), empty.Interface()}, {empty.Interface(), reflect.Zero(t).Interface()}} {
+				for _, probe := range []reflect.Value{reflect.Zero(t), empty} {
+					hit, err := whenIn(cands, probe)
+					in2 := arg.In(cands...)
+					_ = in2.Resolve([]reflect.Type{t}, false)
+					hit2, err2 := eval(in2, t, probe)
+					if err != nil || err2 != nil || !hit || !hit2 {
+						return fmt.Errorf("In(nil, empty) of type %v (in either order) asked about %s: When.In says %v (%v), arg.In says %v (%v), want true", t, vkit.Describe(probe), hit, err, hit2, err2)
+					}
+				}
+			}
+			s.Class("in-nil-and-empty")
+		}
+		if yeq, _ := eval(ey, t, y); yeq {
+			hit, err := whenIn(extra, y)
+			if err != nil || !hit {
+				return fmt.Errorf("When.In(candidates..., y) asked about y says %v (%v) although Equals(y).Eval(y) holds; %s", hit, err, desc())
+			}
+		}
 	}
 	// evaluating never changes later answers
 	for k := 0; k < 2; k++ {
